@@ -571,6 +571,31 @@ class Interp:
         return c.mod.rel == "jesse/exceptions/__init__.py"
 
     # ---------------------------------------------------------------- attributes
+    def _literal_init(self, v, attr):
+        for m, cn in self.repo.mro(v.mod, v.node):
+            for b in cn.body:
+                if isinstance(b, ast.FunctionDef) and b.name == "__init__" and b.args.args:
+                    me = b.args.args[0].arg
+                    for st in b.body:
+                        tgt = val = None
+                        if isinstance(st, ast.Assign) and len(st.targets) == 1:
+                            tgt, val = st.targets[0], st.value
+                        elif isinstance(st, ast.AnnAssign) and st.value is not None:
+                            tgt, val = st.target, st.value
+                        if not (isinstance(tgt, ast.Attribute) and isinstance(tgt.value, ast.Name) and tgt.value.id == me and tgt.attr == attr):
+                            continue
+                        if isinstance(val, ast.Constant) and (val.value is None or isinstance(val.value, (bool, int, float, str))):
+                            return (self.e_Constant(val, None),)
+                        if isinstance(val, ast.Dict) and not val.keys:
+                            return ({},)
+                        if isinstance(val, (ast.List, ast.Tuple)) and not val.elts:
+                            return ([],)
+                        if isinstance(val, ast.Call) and isinstance(val.func, ast.Name) and val.func.id in ("dict", "list", "set") and not val.args and not val.keywords:
+                            return ({} if val.func.id == "dict" else [] if val.func.id == "list" else set(),)
+                        return None
+                    return None
+        return None
+
     def getattr(self, v, attr: str, node=None, frame: Frame = None):
         if isinstance(v, (BoundBuiltin, FuncV)) and attr in ("__name__", "__qualname__"):
             return getattr(v, "qual", None) or "function"
@@ -600,6 +625,13 @@ class Interp:
                                         return Unknown(f"{v.name}.{attr}")
             if v.open_world:
                 return Unknown(f"{v.name}.{attr}")
+            if v.node is not None:
+                # a field the abstract world does not know (added since the world was written - a cache, a memo): its value on a
+                # fresh object, when __init__ sets it unconditionally to a literal that does not depend on the constructor arguments
+                init = self._literal_init(v, attr)
+                if init is not None:
+                    v.attrs[attr] = init[0]
+                    return init[0]
             raise NotInFragment(f"unknown attribute {v.name}.{attr}")
         if isinstance(v, ModV):
             ov = self.overrides.get(f"{v.mod.rel}:{attr}")
@@ -807,6 +839,20 @@ class Interp:
                 for i in list(range(n))[lo:hi]:
                     base.rows[i].items[:] = [v] * len(base.rows[i].items)
                 return
+            if isinstance(base, Arr) and (is_num(v) or v is NAN or isinstance(v, Arr)):
+                # a 1-D row: the values are written into the row's memory (every alias of the row sees them)
+                n = len(base.items)
+                lo, hi = ci(k.start, 0), ci(k.stop, n)
+                idx = list(range(n))[lo:hi]
+                if isinstance(v, Arr):
+                    if len(v.items) != len(idx):
+                        raise _Raise(ExcV("ValueError", ["could not broadcast"]))
+                    vals = list(v.items)
+                else:
+                    vals = [v] * len(idx)
+                for i, x in zip(idx, vals):
+                    base.items[i] = x
+                return
             raise NotInFragment(f"slice store {norm(node)}")
         if isinstance(base, dict):
             k = self._key(k)
@@ -957,6 +1003,17 @@ class Interp:
                 items = [Unknown(it.tag + "[i]")]
             else:
                 items = []
+        elif isinstance(it, list):
+            # Python semantics: a list that grows while it is being iterated hands out the new elements too (the queue of pending
+            # market orders is flushed this way)
+            def live(lst):
+                i = 0
+                while i < len(lst):
+                    if i > 100000:
+                        raise NotInFragment(f"for loop over a list that keeps growing: {norm(s.iter)}")
+                    yield lst[i]
+                    i += 1
+            items = live(it)
         else:
             items = self.iterate(it, s.iter)
         broke = False
